@@ -18,21 +18,30 @@ from ..sim import pool
 
 ID = "C02"
 LEVEL = "proof"
+STRENGTH = "partial"
 ENGINES = ["lean-model", "pyextract", "kopfsim"]
 TIE = "T (HandlerState booleans, with_outcome flags, lifecycles re-extracted and re-proved) + S: step refinement — each real handling pass (closed-loop simulation incl. restarts/kills) replayed through the Lean `cycle`"
-LEVEL_TEXT = ("Lean theorems for all stored-record maps, outcome scripts, lifecycles (one_by_one/all_at_once/asap), clocks and any "
-              "placement of restarts/foreign events between passes: no_rerun, retry_kwarg, invoked_selected_awake, "
-              "closed_iff_all_finished, closed_purges(+subrefs), finished_persists, final_outcome_recorded, "
-              "finished_never_invoked, once_per_cycle (+ stale_view_reruns witness for the excluded environments). "
-              "The model is hand-written; its step function is compared with the real process_changing_cause on every "
-              "pass of seeded whole-operator simulations. Sub-handlers run the same execOnce; their top-level effect "
-              "(parent waits, subrefs purged) is tied, their inner pass is checked by the oracle only.")
+LEVEL_TEXT = ("Lean theorems for all stored-record maps, outcome scripts, lifecycles (one_by_one/all_at_once/asap) and clocks. "
+              "Single pass, unguarded: no_rerun, retry_kwarg, invoked_selected_awake, closed_iff_all_finished, closed_purges(+skip, "
+              "+subrefs), final_outcome_recorded, due_invoked_all_at_once (the converse for all-at-once only). Across passes "
+              "(any placement of restarts and foreign events that keep the cause; selection/limits/lifecycle may change per pass): "
+              "finished_persists, finished_never_invoked(_varying), once_per_cycle(_varying) — GUARDED by `NoExtras` (no cause "
+              "supersedes the open cycle in between); the guard is needed: superseding_cause_reruns_witness; the environments "
+              "the property itself excludes: stale_view_reruns. Sub-handlers: the sub-pass (sub_no_rerun, sub_retry_kwarg, "
+              "parent_final_iff_subs_finished, sub_records_covered, sub_writes_only_known) and the pass COMPOSED with the "
+              "sub-passes of its parents on one store (`cycle2`: cycle2_refines_cycle, cycle2_closed_purges_children, "
+              "cycle2_child_no_rerun); 'a sub-handler … is never invoked again across intervening events' is false of the code: "
+              "sub_rerun_after_supersede_witness = open finding C02-F1. 'Last-handled state written exactly when closed': the "
+              "model has the closing decision (`closed`), compared with the code on every pass; the write itself is an oracle "
+              "clause. Ties: T (HandlerState booleans, outcome flags, lifecycles), S per pass (invocations, every top-level "
+              "record, purged children both ways, closing decision, delays), S per sub-pass, S per whole pass with its sub-passes.")
 THEOREMS = [("Kopf.Props.C02", "Kopf.C02." + n) for n in [
     "no_rerun", "retry_kwarg", "invoked_selected_awake", "closed_iff_all_finished", "closed_purges",
     "closed_purges_skip", "closed_purges_subrefs", "finished_persists", "final_outcome_recorded", "noExtras_preserved",
     "finished_never_invoked", "once_per_cycle", "finished_never_invoked_varying", "once_per_cycle_varying", "stale_view_reruns",
     "due_invoked_all_at_once", "sub_no_rerun", "sub_retry_kwarg", "parent_final_iff_subs_finished", "sub_records_covered", "sub_writes_only_known",
-    "sub_records_purged_on_close"]]
+    "sub_records_purged_on_close", "superseding_cause_reruns_witness",
+    "cycle2_refines_cycle", "cycle2_closed_purges_children", "cycle2_child_no_rerun", "sub_rerun_after_supersede_witness"]]
 TIE_THEOREMS = [("Kopf.Tie.C02", "Kopf.C02.Tie." + n) for n in [
     "finished_eq", "sleeping_eq", "awakened_eq", "success_eq", "failure_eq", "one_by_one_eq", "all_at_once_eq"]]
 RULE = ("seeded scenarios: 1-4 change handlers (create/update/delete/resume, optional sub-handlers), outcome scripts over "
@@ -40,8 +49,14 @@ RULE = ("seeded scenarios: 1-4 change handlers (create/update/delete/resume, opt
         "graceful stops and kills with restarts at random dyadic times; one case = one handling pass; distinct & non-trivial = "
         "distinct abstracted (reason, stored-record shape, outcomes, closing) tuples with at least one handler selected")
 TRUSTED = ["harness/sim (virtual-time loop, fake API server, scripted handlers, attribute-level observation of kopf)",
-           "abstraction of a pass: records decoded with kopf's own progress storage (C16's subject)"]
+           "abstraction of a pass: records decoded with kopf's own progress storage (C16's subject)",
+           "the closing decision of a pass is observed through `memory.fully_handled_once` (reset around the call, restored after)"]
 ASSUMPTIONS = ["randomized/shuffled lifecycles are not modelled (they draw from `random`); generators use the three deterministic ones",
+               "handler ids identify handlers (one function stacked under one id for several causes shares one record: not generated, not claimed)",
+               "the multi-pass theorems chain every pass from what the previous one wrote (the honest reading of 'absent crashes, lost "
+               "responses, late echoes') and assume no pass of another reason (a superseding cause, incl. a no-op that purges) in between",
+               "`cycle2` composes one level of sub-handlers on one clock; nested sub-handlers and passes in which time advances between "
+               "the handlers (sleeping handlers) are compared per sub-pass only (histogram whole_pass_skipped)",
                "sync handlers run inline (no real threads)"]
 
 OWN_PREFIX = "kopf.zalando.org/"
@@ -291,6 +306,13 @@ def oracle(ctx: Ctx, sc: dict, tr: dict) -> None:
                 ctx.oracle_fail(f"the handling cycle is closed (no handler selected any more) but progress records remain: {prog}",
                                 {"scenario": sc, "cycle": cyc["i"]},
                                 {"site": "process_changing_cause", "shape": "progress annotations left after closing by skip"})
+        # "closed (progress records removed, last-handled state written) exactly when …": the converse of
+        # "not before" — a pass that closes the cycle writes the last-handled state when it differs
+        cz = cyc.get("cause") or {}
+        if p and p["reason"] in KINDS and p.get("closed") and "diffbase_in_patch" in p and cz.get("new") is not None \
+                and (cz.get("old_absent") or cz.get("diff")) and not p["diffbase_in_patch"]:
+            ctx.oracle_fail("the handling cycle is closed but the last-handled state was not written although it differs",
+                            {"scenario": sc, "cycle": cyc["i"]}, {"site": "process_changing_cause", "shape": "closed without last-handled"})
         if not p or p["reason"] not in KINDS or not p["selected"] or p.get("outcomes") is None or "P_after" not in p:
             continue
         fin_after = {}
@@ -334,6 +356,31 @@ def oracle(ctx: Ctx, sc: dict, tr: dict) -> None:
                 if fin and p["P_after"].get(hid) is None:
                     ctx.oracle_fail(f"record of finished handler {hid} dropped while the cycle is still open",
                                     {"scenario": sc, "cycle": cyc["i"]}, {"site": "State.store", "shape": "finished record lost"})
+    # a sub-handler whose success is recorded is not invoked again while its parent continues the SAME retry series
+    # (the parent's record — same `started` — is still there): audit A2 NEW-1
+    sub_ok: dict[tuple, Any] = {}
+    for cyc in tr["cycles"]:
+        p = cyc.get("pcc")
+        if not p:
+            continue
+        for inv in cyc["invoked"]:
+            if "/" not in inv["id"]:
+                continue
+            parent = inv["id"].rsplit("/", 1)[0]
+            prec = (p.get("P") or {}).get(parent)
+            key = (cyc["inc"], cyc["uid"], inv["id"])
+            if key in sub_ok and prec and prec.get("started") == sub_ok[key] and inv["retry"] == 0 and not dead_times and not sc.get("faults"):
+                ctx.oracle_fail(f"sub-handler {inv['id']} is invoked from scratch although it succeeded earlier in the same retry series of its parent {parent}",
+                                {"scenario": sc, "cycle": cyc["i"], "parent_record": prec},
+                                {"site": "process_changing_cause", "shape": "finished sub-handler re-run after the superseded progress (children's records) was purged while the parent was re-purposed"})
+        for sp in p.get("subpasses") or []:
+            if "error" in sp or not sp.get("outcomes"):
+                continue
+            prec = (p.get("P") or {}).get(sp["parent"])
+            started = prec.get("started") if prec else p.get("now")
+            for sid, o in sp["outcomes"].items():
+                if o["final"] and not o["error"]:
+                    sub_ok[(cyc["inc"], cyc["uid"], sid)] = started
     # at most one success per handler per handling cycle, absent the excluded environments
     if not dead_times and not sc.get("faults"):
         succ: dict[tuple, int] = {}
@@ -383,6 +430,7 @@ def abstract(cyc: dict, lifecycle: str) -> tuple[list, dict] | None:
     impl = {"invoked": [[i["id"], i["retry"]] for i in cyc["invoked"] if i["id"] in top],
             "P": {k: v for k, v in p["P_after"].items() if k in top},
             "purged_subs": sorted(k for k, v in p["P_after"].items() if k not in top and v is None),
+            "closed": bool(p.get("closed")),
             "delays": sorted(round(d * 64) for d in p.get("delays", []))}
     # for the converse direction (what the model purges must be gone in the implementation, unless a
     # sub-pass of this very pass wrote it again): kept aside, resolved once the model has answered
@@ -416,6 +464,44 @@ def abstract_subs(cyc: dict, lifecycle: str) -> list[tuple[list, dict]]:
         impl["P"] = {k: after.get(k) for k in known} if survives else None
         out.append((req, impl))
     return out
+
+
+def abstract_whole(cyc: dict, lifecycle: str) -> tuple[list, dict] | str | None:
+    """A whole pass INCLUDING the sub-passes of its parents, for the composed model `cycle2` (one store, one patch,
+    one clock): all records (top-level and children) after the pass, all invocations. Returns a reason string when
+    the pass is outside what `cycle2` expresses."""
+    p = cyc.get("pcc") or {}
+    sps = p.get("subpasses") or []
+    if not sps or p.get("reason") not in KINDS or not p.get("selected") or p.get("outcomes") is None \
+            or not isinstance(p.get("P_after"), dict) or "error" in p["P_after"]:
+        return None
+    if any("error" in sp or sp.get("outcomes") is None for sp in sps):
+        return "sub-pass not observed"
+    if p.get("now1") not in (None, p["now"]) or any(sp["now"] != p["now"] or sp["now1"] not in (None, p["now"]) for sp in sps):
+        return "several clocks in one pass"
+    if any(set(sp["known"]) != set(sp["selected"]) for sp in sps) or len({sp["parent"] for sp in sps}) != len(sps):
+        return "children outside the registered ones"
+    if any("/" in k.split("/", 1)[1] for sp in sps for k in sp["known"] if "/" in k):
+        return "nested sub-handlers"
+    if any(sp["limits"].get(k) not in (None, [None, None]) for sp in sps for k in sp["selected"]):
+        return "sub-handler limits"
+    children = {sp["parent"]: sp["selected"] for sp in sps}
+    kids = [k for sp in sps for k in sp["selected"]]
+    outcomes = {k: {f: v[f] for f in ("final", "delay", "error", "subrefs")} for k, v in p["outcomes"].items() if k not in children}
+    for sp in sps:
+        outcomes.update({k: {f: v[f] for f in ("final", "delay", "error", "subrefs")} for k, v in sp["outcomes"].items()})
+    Pall = dict(p["P"])
+    for sp in sps:
+        Pall.update(sp["P"])
+    universe = sorted(set(p["owned"]) | set(Pall) | set(kids))
+    req = ["C02.cycle2", {"owned": p["owned"], "selected": p["selected"], "limits": p["limits"], "reason": p["reason"],
+                          "lifecycle": lifecycle, "children": children, "P": Pall, "outcomes": outcomes, "now": p["now"],
+                          "universe": universe}]
+    top = set(p["owned"])
+    impl = {"invoked": [[i["id"], i["retry"]] for i in cyc["invoked"] if i["id"] in top],
+            "subInvoked": [[i["id"], i["retry"]] for i in cyc["invoked"] if i["id"] in kids],
+            "P": {k: p["P_after"].get(k) for k in universe}, "closed": bool(p.get("closed"))}
+    return req, impl
 
 
 def run(ctx: Ctx) -> None:
@@ -455,6 +541,14 @@ def run(ctx: Ctx) -> None:
             reqs.append(req)
             impls.append(impl)
             where.append({"scenario": sc, "cycle": cyc["i"]})
+            whole = abstract_whole(cyc, lifecycle)
+            if isinstance(whole, str):
+                ctx.count("whole_pass_skipped", whole)
+            elif whole is not None:
+                reqs.append(whole[0])
+                impls.append(whole[1])
+                where.append({"scenario": sc, "cycle": cyc["i"], "whole_pass": True})
+                ctx.count("whole_pass", "closed" if whole[1]["closed"] else "open")
             for sreq, simpl in abstract_subs(cyc, lifecycle):
                 reqs.append(sreq)
                 impls.append(simpl)
@@ -476,6 +570,10 @@ def run(ctx: Ctx) -> None:
             ctx.tie_fail("driver rejected a pass", {"request": req, "answer": out, **wh})
             continue
         m = out[1]
+        if req[0] == "C02.cycle2":
+            model = {"invoked": m["invoked"], "subInvoked": m["subInvoked"], "P": m["P"], "closed": m["closed"]}
+            ctx.compare("C02 whole pass with its sub-passes", impl, model, wh)
+            continue
         if req[0] == "C02.subpass":
             model = {"invoked": m["invoked"], "final": m["final"], "error": m["error"], "delay": m["delay"],
                      "subrefs": sorted(m["subrefs"]), "P": m["P"] if impl["P"] is not None else None}
@@ -487,6 +585,7 @@ def run(ctx: Ctx) -> None:
                         and m["P"].get(k) is None and k not in sub_written]
         impl["unpurged_subs"] = sorted(k for k in model_purged if after_all.get(k) is not None)
         model = {"invoked": m["invoked"], "P": {k: v for k, v in m["P"].items() if k in top}, "unpurged_subs": [],
+                 "closed": m["closed"],
                  "purged_subs": impl["purged_subs"] if all(m["P"].get(k) is None for k in impl["purged_subs"]) else
                  sorted(k for k in impl["purged_subs"] if m["P"].get(k) is None),
                  "delays": sorted(m["delays"])}
